@@ -129,8 +129,9 @@ def cycle(run, src, cfg, kw, k, tags, pend, nontrivial=True):
         except Exception as e:
             run.fail("rewrite-raised", icase, {"exception": repr(e)[:300], "context": ctx})
             return
-        if mo is not None:
-            pend.append((icase, {"op": "wo.write", "cfg": c16.model_cfg(cfg), "obj": mo, "step_diff": sd}, x2, None, c16.model_obj(cur)))
+        req = c16.wo_request(cfg, mo, sd) if mo is not None else None
+        if req is not None:
+            pend.append((icase, req, x2, None, c16.model_obj(cur)))
         else:
             run.dist["write-outside-model-domain"] += 1
         try:
@@ -167,10 +168,16 @@ def gen_cfg(rng, plain=False):
                     spacer=" ", data_width=79, header_width=60, mnemonics_header=False, data_section_header="~ASCII")
     fmt = rng.choice(["%.5f", "%.5f", "%.2f", "%.8f", "%10.3f", "%.0f", "%14.6f"])
     cf = [[0, rng.choice(["%.3f", "%.1f", "%12.6f"])]] if rng.random() < 0.25 else []
-    return dict(version=rng.choice([1.2, 2.0, None]), wrap=rng.choice([None, True, False]), fmt=fmt, column_fmt=cf,
-                len_numeric_field=rng.choice([None, None, -1, 12, 18]), lhs_spacer=rng.choice([" ", "", "  "]),
-                spacer=rng.choice([" ", "  "]), data_width=rng.choice([79, 60, 120]), header_width=rng.choice([60, 60, 40]),
-                mnemonics_header=rng.random() < 0.25, data_section_header=rng.choice(["~ASCII", "~A"]))
+    cfg = dict(version=rng.choice([1.2, 2.0, None]), wrap=rng.choice([None, True, False]), fmt=fmt, column_fmt=cf,
+               len_numeric_field=rng.choice([None, None, -1, 12, 18]), lhs_spacer=rng.choice([" ", "", "  "]),
+               spacer=rng.choice([" ", "  "]), data_width=rng.choice([79, 60, 120, 24, 36]), header_width=rng.choice([60, 60, 40]),
+               mnemonics_header=rng.random() < 0.25, data_section_header=rng.choice(["~ASCII", "~A"]))
+    if rng.random() < 0.2:
+        # the STRT / STOP / STEP keyword arguments ("forall writer option sets"): numbers, text, only some of them given
+        val = lambda: rng.choice([["none"], ["none"], ["f", float(rng.choice([0.0, 1.5, 100.0, 1670.0, -3.25])).hex()], ["i", rng.choice([0, 7, 2000])],
+                                  ["s", rng.choice(["", "12.5", "top"])]])
+        cfg["sss"] = [val(), val(), val()]
+    return cfg
 
 
 MUT_LINES = {
@@ -277,11 +284,15 @@ def classify(failure):
     dlm = (ctx.get("dlm") or "SPACE").upper()
     if dlm not in ("SPACE", "") and failure["clause"] in ("rewrite-raised", "reread-raised", "data-drift", "header-drift"):
         return "dlm-not-space"
+    if c["cfg"]["wrap"] is not None and ctx.get("wrap_items", 0) >= 2 and \
+            failure["clause"] in ("rewrite-raised", "reread-raised", "data-drift", "header-drift"):
+        # the input has two WRAP items and wrap=True/False is passed: the writer appends a further WRAP item per cycle while the
+        # reader keeps following the first one; besides the growing ~Version this can make a wrapped output be re-read as an
+        # unwrapped one (uniform physical lines), with everything that follows from that (data, STRT/STOP/STEP)
+        return "dup-wrap-grows"
     if failure["clause"] != "header-drift":
         return None
     diffs = d.get("diff") or []
-    if diffs and all(e[0].startswith("count:Version") for e in diffs) and c["cfg"]["wrap"] is not None and ctx.get("wrap_items", 0) >= 2:
-        return "dup-wrap-grows"
     items = [e for e in diffs if e[0].startswith("item:")]
     if len(items) != len(diffs) or not items:
         return None
@@ -365,6 +376,9 @@ def run(run):
         if r < 0.4:
             text, kw, tag = c16.gen_text(rng)
             tag = "literal"
+            if rng.random() < 0.2:
+                # the WRAP value in other spellings (the reader takes only the exact text YES for a wrapped file)
+                text = text.replace("WRAP. NO : w\n", "WRAP. %s : w\n" % rng.choice(["Yes", "yes", "No", "no", "YES"]), 1)
         elif r < 0.75:
             try:
                 text = ld.render(ld.gen_doc(rng), eol=rng.choice(["\n", "\n", "\r\n"]))
